@@ -44,7 +44,10 @@ std::pair<bool, ticket_type> internal_try_pop_impl(void* dst, QueueRep& queue, A
             // Queue had item with ticket k when we looked.  Attempt to get that item.
             // Another thread snatched the item, retry.
         } while (!queue.head_counter.compare_exchange_strong(ticket, ticket + 1));
+        // If moving the item out throws (user-defined assignment), the entry is gone and its slot is vacated as well
+        auto vacated_guard = make_raii_guard([&] { skipped_ticket(ticket); });
         popped = queue.choose(ticket).pop(dst, ticket, queue, alloc);
+        vacated_guard.dismiss();
         if (!popped) {
             skipped_ticket(ticket);
         }
@@ -557,7 +560,8 @@ private:
         std::swap(my_monitors, src.my_monitors);
     }
 
-    static constexpr std::ptrdiff_t infinite_capacity = std::ptrdiff_t(~size_type(0) / 2);
+    // size_type is signed here: the constant has to be computed in an unsigned type
+    static constexpr std::ptrdiff_t infinite_capacity = std::ptrdiff_t(~std::size_t(0) / 2);
 
     template <typename... Args>
     void internal_push( Args&&... args ) {
@@ -627,9 +631,13 @@ private:
                 });
             }
             __TBB_ASSERT(static_cast<std::ptrdiff_t>(my_queue_representation->tail_counter.load(std::memory_order_relaxed)) > target, nullptr);
+            // The slot of the claimed ticket is vacated whatever happens to its entry - it is moved out, it was invalid
+            // (left by a push that threw), or moving it out throws: a producer that waits for this slot must be woken.
+            auto vacated_guard = make_raii_guard([&] {
+                r1::notify_bounded_queue_monitor(my_monitors, cbq_slots_avail_tag, target);
+            });
             popped = my_queue_representation->choose(target).pop(dst, target, *my_queue_representation, my_allocator);
-            // The slot of the claimed ticket is vacated even if its entry was invalid (left by a push that threw):
-            // a producer that waits for this slot must be woken in both cases.
+            vacated_guard.dismiss();
             r1::notify_bounded_queue_monitor(my_monitors, cbq_slots_avail_tag, target);
         } while (!popped);
     }
